@@ -476,6 +476,7 @@ def verify_contract(c, reg, timeout_ms=QUICK_TIMEOUT_MS, max_paths=4000, want_sm
         out['inlined'] = sorted(set(out['inlined']) | ip.inlined)
         out['native'] = sorted(set(out['native']) | ip.native_calls)
         out['opaque_specs'] = sorted(set(out['opaque_specs']) | ip.opaque_used)
+        out['assumed_repo_models'] = sorted(set(out.get('assumed_repo_models', [])) | ip.repo_models)
 
     try:
         results = explore(run_path, max_paths=max_paths, time_limit=time_limit, keep_unsupported=True)
